@@ -238,8 +238,8 @@ func (c *ctx) fill(v reflect.Value, exact bool) {
 		return
 	case t == tTime:
 		sec := c.rnd.Int63n(4102444800)
-		if c.rnd.Intn(6) == 0 { // instants that are special to an implementation: the Unix epoch second, day and leap-day edges
-			sec = int64(c.pick(0, 0, 1, 59, 60, 3599, 86399, 86400, 951782399, 951782400, 2147483647, 2147483648, 4102444799))
+		if c.rnd.Intn(3) == 0 { // instants that are special to an implementation: the Unix epoch second, day and leap-day edges
+			sec = int64(c.pick(0, 0, 0, 0, 1, 59, 60, 3599, 86399, 86400, 951782399, 951782400, 2147483647, 2147483648, 4102444799))
 		}
 		ts := time.Unix(sec, int64(c.pick(0, 0, 123456789))).In(time.FixedZone("", c.pick(0, 0, 3600, -18000, 19800, -12600, -34200, -1800, 20700)))
 		v.Set(reflect.ValueOf(backend.ISO8601Time(ts)))
